@@ -149,13 +149,16 @@ CHECKS = {
         "assumptions": ["the wake-up protocol is proved generically (EventLoop.v); that each worker loop is an instance is validated by the lockstep machines (Retry) and the virtual-time bound"],
     },
     "C20": {
-        "modules": ["p_c20"],
-        "rule": "seeded scenarios on real stacks with a stand-in prometheus_client: 1-5 submissions (success, failure with retries, blocked), "
+        "modules": ["p_c20", "p_c20q"],
+        "rule": "p_c20q: the same stacks with every RetryExecutor._jobs / ThrottleExecutor._to_submit replaced by a logging container, the executor locks named and "
+                "every RETRY_QUEUE / THROTTLE_QUEUE update observed in the stand-in registry; the projection of each history onto (lock acquire/release, append, "
+                "removal, inc, dec) per executor instance is replayed on Model/QGauge.v (extracted); p_c20: seeded scenarios on real stacks with a stand-in prometheus_client: 1-5 submissions (success, failure with retries, blocked), "
                 "cancels at t=0/1/2/4 (queued, between retries, in flight), small or infinite timeouts, raising poll functions, optional early "
                 "shutdown; at final quiescence every gauge of the stack must be 0, no gauge may ever go negative, counters future_total / "
                 "future_cancel / future_error of the user-visible future type, poll_total / poll_error and exec_total must equal the observed "
                 "events; non-trivial = a cancel or a failing first attempt",
-        "assumptions": ["gauge/counter pairing is modelled abstractly (Model/Metrics.v); the tie is the registry-vs-reality comparison of this run"],
+        "assumptions": ["queue gauges: Model/QGauge.v in lockstep (a gauge update is attributed to the executor instance of the adjacent container operation of the same thread, the gauges being labelled by executor name only)",
+                        "PARTIAL: future_inprogress / exec_inprogress and the counters are decided by the registry-vs-reality comparison of this run; their pairing law is Model/Metrics.v"],
     },
     "C12": {
         "modules": ["p_c12"],
